@@ -45,6 +45,9 @@ def factory_facts(prog: Program, direction: str):
                     if k[0] == "attr" and k[1] == node and k[2] in ("type", "unwrapped"):
                         facts["keys"].add(k[2])
                         stored[k[2]] = v
+                    elif k[0] == "ref" and v[0] == "call" and (T.refname(v[1]) or "").rsplit(".", 1)[-1].startswith("NoOp"):
+                        # a constant annotation seeded with a pass-through routine (the graph's skip set, see C15)
+                        facts.setdefault("seeds", set()).add(k[1])
                     else:
                         facts["bad_keys"].append(T.show(k)[:60])
             disp = stored.get("type")
